@@ -17,7 +17,7 @@ from tensorly.regression.tucker_regression import TuckerRegressor
 from tensorly.regression.cp_plsr import CP_PLSR
 
 from vlib import gen, ref
-from vlib.engine import SubCheck, check, discard
+from vlib.engine import SubCheck, check, discard, Fail
 from vlib.cmp import assert_shape, finite, close, as_array
 
 PROPERTY = "C19"
@@ -214,6 +214,15 @@ def _plsr_fit(case, X, Y):
     return e
 
 
+def _bcast(a, shape, clause):
+    """offsets are only required to act like an array of this shape (their exact shape is not documented)"""
+    a = as_array(a, clause)
+    try:
+        return np.array(np.broadcast_to(a, shape), dtype=float)
+    except ValueError:
+        raise Fail(clause, f"shape {a.shape} does not broadcast to {tuple(shape)}")
+
+
 def _plsr_attrs(e, case, tag="plsr"):
     """exposed attributes, shape-checked; discards fits with non-finite loadings"""
     n, sides, c = case["n"], tuple(case["sides"]), case["ncomp"]
@@ -223,8 +232,8 @@ def _plsr_attrs(e, case, tag="plsr"):
     XF = [assert_shape(f, (s, c), f"{tag}/X_factors[{i}]/shape") for i, (f, s) in enumerate(zip(e.X_factors, (n,) + sides))]
     YF = [assert_shape(e.Y_factors[0], (n, c), f"{tag}/Y_factors[0]/shape"), assert_shape(e.Y_factors[1], (p, c), f"{tag}/Y_factors[1]/shape")]
     coef = assert_shape(e.coef_, (c, c), f"{tag}/coef_/shape")
-    xm = assert_shape(e.X_mean_, sides, f"{tag}/X_mean_/shape")
-    ym = assert_shape(e.Y_mean_, (p,), f"{tag}/Y_mean_/shape")
+    xm = _bcast(e.X_mean_, sides, f"{tag}/X_mean_/shape")
+    ym = _bcast(e.Y_mean_, (p,), f"{tag}/Y_mean_/shape")
     if not all(np.all(np.isfinite(a)) for a in XF + YF + [coef]):
         discard("non-finite loadings (components not supported by the centred data)")
     return XF, YF, coef, xm, ym
